@@ -418,6 +418,9 @@ def run(ck):
     ck.rule("C37.cancel-aware", "the outcome read of the awaited future is cancel-aware (CancelledError handled or excluded), as `await` would raise CancelledError inside a native coroutine")
     ck.rule("C37.handle-yield", "handle_yield returns True only for a done() future without registering, False only after exactly one wake-up registration; bad yields become failed futures; the Runner starts immediately only on True")
     ck.rule("C37.none-test", "in Runner.run the saved exception / pending future are compared with None by identity (an exception object may be falsy and must still be thrown into the generator)")
+    ck.rule("C37.multi", "yield of a list/dict (gen.multi): fresh output; the unfinished set is complete before registration; the output is settled only after the last child finished and then always")
+    ck.rule("C37.multi-listen", "every distinct yielded child is listened to exactly once")
+    ck.rule("C37.multi-order", "results (and the first failure) are taken in list order, dict results zipped with the keys in the same order")
     ck.rule("C37.convert", "convert_yielded: None/moment -> moment; list/dict -> multi; future -> itself; other awaitable -> task; anything else -> BadYieldError")
 
     check_who_may_advance(ck)
@@ -427,6 +430,9 @@ def run(ck):
     check_runner_run(ck)
     check_handle_yield(ck)
     check_convert(ck)
+    # `yield [..]` / `yield {..}` go through gen.multi: its rules (shared with C36) are part of this property's mechanism
+    from .c36 import check_multi
+    check_multi(ck, P="C37")
     run_ = ck.func(G, "Runner.run")
     n = check_none_tests(ck, "C37.none-test", run_)
     ck.floor("C37.none-test", n, 2, "None tests in Runner.run")
